@@ -134,3 +134,7 @@ package model
 //@        has(nodes, pkgAliases(packages[i])[j].Label) && nodes[pkgAliases(packages[i])[j].Label] == iface(pkgAliases(packages[i])[j], "*model.Alias"))
 //@   invariant [targets_done] forall j int :: {pkgTargets(pkg)[j]} 0 <= j && j < len(pkgTargets(pkg)) ==> has(nodes, pkgTargets(pkg)[j].Label) && nodes[pkgTargets(pkg)[j].Label] == iface(pkgTargets(pkg)[j], "*model.Target")
 //@   invariant [aliases_so_far] forall j int :: {pkgAliases(pkg)[j]} 0 <= j && j <= rangeindex ==> has(nodes, pkgAliases(pkg)[j].Label) && nodes[pkgAliases(pkg)[j].Label] == iface(pkgAliases(pkg)[j], "*model.Alias")
+
+//@ func NewOutput(typeName, identifier) (o)
+//@   pure
+//@   ensures [fields] o.Type == typeName && o.Identifier == identifier
